@@ -75,6 +75,57 @@ def run (op : String) : P String :=
       pure (toString (lcsLength (hashList [] xs) (hashList [] ys)) ++ " " ++
         String.intercalate "," ((lcsValues (hashList [] xs) (hashList [] ys)).map hex64))
     | _, _ => pure "bad-args"
+  | "json" => do
+    let nc ← pNumDict; let n ← pNode
+    pure (encOptText (jsonM nc n))
+  | "readjson" => do
+    let nc ← pNumDict; let t ← pText
+    pure (encOutcome encNode (readJsonM nc t))
+  | "render" => do
+    let nc ← pNumDict; let o ← pOpts; let d ← pDiff
+    pure (encOptText (renderM nc o d))
+  | "readdiff" => do
+    let nc ← pNumDict; let t ← pText
+    pure (encOutcome encDiff (readDiffM nc t))
+  | "renderpatch" => do
+    let nc ← pNumDict; let d ← pDiff
+    pure (match renderPatchM nc d with
+      | .ok t => encOptText t
+      | .err => "err"
+      | .panic => "panic")
+  | "readpatch" => do
+    let nc ← pNumDict; let t ← pText
+    pure (encOutcome encDiff (readPatchM nc t))
+  | "rendermerge" => do
+    let nc ← pNumDict; let d ← pDiff
+    pure (match renderMergeM nc d with
+      | .ok t => encOptText t
+      | .err => "err"
+      | .panic => "panic")
+  | "readmerge" => do
+    let nc ← pNumDict; let t ← pText
+    pure (encOutcome encDiff (readMergeM nc t))
+  | "c09" => do
+    let nc ← pNumDict; let a ← pNode; let b ← pNode; let d ← pDiff
+    let txt ← pOutcomeText
+    let n ← pNat
+    let mut ts : List (Json × Outcome Json) := []
+    for _ in [0:n] do
+      let c ← pNode
+      let out ← pOutcomeNode
+      ts := ts ++ [(c, out)]
+    pure (oracleC09 nc a b d txt ts)
+  | "c10" => do
+    let nc ← pNumDict; let t ← pText; let c ← pNode
+    let rd ← pOutcomeDiff; let po ← pOutcomeNode
+    pure (oracleC10 nc t c rd po)
+  | "c11" => do
+    let nc ← pNumDict; let o ← pOpts; let a ← pNode; let b ← pNode
+    let txt ← pOutcomeText
+    pure (oracleC11 nc o a b txt)
+  | "c12" => do
+    let nc ← pNumDict; let t ← pNode; let txt ← pText; let out ← pOutcomeNode
+    pure (oracleC12 nc t txt out)
   | "echo" => do
     let n ← pNode
     pure (encNode n)
